@@ -61,3 +61,7 @@ pub fn prop() -> HistProp {
         shrink_iters: 400,
     }
 }
+
+pub fn child_main(_req: &str) -> i32 {
+    2
+}
